@@ -8,6 +8,10 @@ func (c *Conversation) processDisconnectedTLV(t tlv, x dataMessageExtra) (toSend
 	defer c.signalSecurityEventIf(previousMsgState == encrypted, GoneInsecure)
 	c.lastMessageStateChange = time.Time{}
 	c.msgState = finished
+	// the last message of the session that ends here must not be sent
+	// again in a later session (End() forgets it too)
+	c.resend.clear()
+	c.updateMayRetransmitTo(noRetransmit)
 	c.smp.wipe()
 	c.ake.wipe(true)
 	c.ake = nil
